@@ -12,6 +12,8 @@ BaseStrat == [maxUnavailable |-> IP(1, FALSE), maxSchedFailure |-> IP(0, FALSE),
               afMaxRestartsDur |-> -1, afTimeout |-> -1]
 
 MC_NodeSeq  == <<"n1", "n2", "n3">>
+MC_NodeSeq2  == <<"n1", "n2">>
+MC_InitFits2 == <<{"A", "B"}, {"A", "B"}>>
 MC_TmplSeq  == <<"A", "B">>
 MC_InitFits == <<{"A", "B"}, {"A", "B"}, {"A", "B"}>>
 MC_Strat    == BaseStrat
